@@ -26,6 +26,8 @@ RULE = ("one fresh interpreter per generated program on the real qaptools backen
         "of equal length = #LinComb arguments + #results of that call with pairwise equal (mod p) wire values. "
         "Non-trivial = >= 1 sub-circuit call with >= 1 constraint inside and >= 1 constraint traced after the last public "
         "value; distinct by program digest.")
+RULE += " Extensions (seeded rounds 10-15): boolean coefficients, the proving step run in the middle of the script, sub-circuit calls under a caller's guard, calls that fail half-way and are repeated, the schedule written by the splitting step."
+
 
 P = backends.FIELDS["qaptools"]
 QAPBIN = os.path.join(backends.SHIMS, "qapbin")
